@@ -30,6 +30,22 @@ theorem loader_lists_are_source :
        ("loader/loader.go", "toOptions", "opts.ResourceLoaders = append(opts.ResourceLoaders, localResourceLoader{configDetails.WorkingDir})")] :=
   ⟨rfl, rfl⟩
 
+/-- round 7 — **what a load hands to its nested loads**: the fields of `loader.Options`, the body of `Options.clone`
+and the body of `getExtendsBaseFromFile`.  The per-origin theorems read a nested load as a function of (file, directory
+of the referring file, the loader list derived above): that is sound only while `Options` carries nothing else that one
+nested load writes and another reads.  A new state-carrying field (a per-load cache of extended files keyed by path, a
+memo of included files) copied by `clone` makes the result of the second `extends.file` of one file depend on the
+directory of the first one; this obligation goes red on any such change, and `c12.multi` (one file reached several
+times in one load along different routes) shows the wrong directory on the real code. -/
+theorem nested_load_state_is_source :
+    CV.Gen.paths_optionsFields =
+      ["SkipValidation bool", "SkipInterpolation bool", "SkipNormalization bool", "ResolvePaths bool", "ConvertWindowsPaths bool", "SkipConsistencyCheck bool", "SkipExtends bool", "SkipInclude bool", "SkipResolveEnvironment bool", "SkipDefaultValues bool", "Interpolate *interp.Options", "discardEnvFiles bool", "projectName string", "projectNameImperativelySet bool", "Profiles []string", "ResourceLoaders []ResourceLoader", "KnownExtensions map[string]any", "Listeners []Listener"] ∧
+    CV.Gen.paths_body_clone =
+      "{ return &Options{ SkipValidation: o.SkipValidation, SkipInterpolation: o.SkipInterpolation, SkipNormalization: o.SkipNormalization, ResolvePaths: o.ResolvePaths, ConvertWindowsPaths: o.ConvertWindowsPaths, SkipConsistencyCheck: o.SkipConsistencyCheck, SkipExtends: o.SkipExtends, SkipInclude: o.SkipInclude, SkipResolveEnvironment: o.SkipResolveEnvironment, SkipDefaultValues: o.SkipDefaultValues, Interpolate: o.Interpolate, discardEnvFiles: o.discardEnvFiles, projectName: o.projectName, projectNameImperativelySet: o.projectNameImperativelySet, Profiles: o.Profiles, ResourceLoaders: o.ResourceLoaders, KnownExtensions: o.KnownExtensions, Listeners: o.Listeners, } }" ∧
+    CV.Gen.paths_body_getExtendsBaseFromFile =
+      "{ for _, loader := range opts.ResourceLoaders { if !loader.Accept(refPath) { continue } local, err := loader.Load(ctx, refPath) if err != nil { return nil, nil, err } localdir := filepath.Dir(local) relworkingdir := loader.Dir(refPath) extendsOpts := opts.clone() extendsOpts.ResourceLoaders = append(opts.RemoteResourceLoaders(), localResourceLoader{ WorkingDir: localdir, }) extendsOpts.ResolvePaths = false extendsOpts.SkipNormalization = true extendsOpts.SkipConsistencyCheck = true extendsOpts.SkipInclude = true extendsOpts.SkipExtends = true extendsOpts.SkipValidation = true extendsOpts.SkipDefaultValues = true source, processor, err := loadYamlFile(ctx, types.ConfigFile{Filename: local}, extendsOpts, relworkingdir, nil, ct, map[string]any{}, nil) if err != nil { return nil, nil, err } m, ok := source[\"services\"] if !ok { return nil, nil, fmt.Errorf(\"cannot extend service %q in %s: no services section\", name, local) } services, ok := m.(map[string]any) if !ok { return nil, nil, fmt.Errorf(\"cannot extend service %q in %s: services must be a mapping\", name, local) } _, ok = services[ref] if !ok { return nil, nil, fmt.Errorf( \"cannot extend service %q in %s: service %q not found in %s\", name, path, ref, refPath, ) } var remotes []paths.RemoteResource for _, loader := range opts.RemoteResourceLoaders() { remotes = append(remotes, loader.Accept) } err = paths.ResolveRelativePaths(source, relworkingdir, remotes) if err != nil { return nil, nil, err } return services, processor, nil } return nil, nil, fmt.Errorf(\"cannot read %s\", refPath) }" :=
+  ⟨rfl, rfl, rfl⟩
+
 /-- **`RemoteResourceLoaders` returns a fresh list**: no existing array is written, the result lives in arrays allocated
 by the call (or is nil) and reads the non-local loaders in order -/
 theorem remote_loaders_fresh (h : Heap) (s : GoSlice) :
